@@ -61,6 +61,8 @@ func buildMw(w limMw) mocrelay.Middleware {
 		return mocrelay.Middleware(mocrelay.NewCreatedAtLowerLimitMiddleware(w.L))
 	case "upper":
 		return mocrelay.Middleware(mocrelay.NewCreatedAtUpperLimitMiddleware(w.L))
+	case "window0":
+		return mocrelay.Middleware(mocrelay.NewEventCreatedAtMiddleware(-time.Duration(w.L)*time.Second, 0))
 	}
 	panic("unknown middleware " + w.K)
 }
